@@ -56,6 +56,16 @@ example : ¬ ∃ σ, Sat σ exUnsat := by
     (ps := [(4, [3, 1]), (5, [2, 4, 0, 4])]) (by decide)
   exact h
 
+/-- The checker the harness runs on every `('unsatisfiable', proofs)` the real `solve_cnf`
+returns (learned clauses rebuilt from the proofs alone): acceptance means the input has no model. -/
+theorem checkProofs_sound {cnf : CNF} {ps : List (Nat × List Nat)}
+    (h : checkProofs cnf ps = true) : ¬ ∃ σ, Sat σ cnf :=
+  checkProofs_unsat h
+
+example : ¬ ∃ σ, Sat σ exUnsat :=
+  checkProofs_sound (ps := [(4, [3, 1]), (5, [2, 4, 0, 4])]) (by decide)
+example : checkProofs exUnsat [(4, [3, 1]), (5, [2, 4, 0])] = false := by decide
+
 /-- `solve_cnf` answering `'unsatisfiable'`: no assignment satisfies the input. -/
 theorem unsat_sound {fuel : Nat} {cnf : CNF} {o : Oracle} {c' : CNF} {ps : List (Nat × List Nat)}
     (h : solveCnf fuel cnf o = .unsat c' ps) : ¬ ∃ σ, Sat σ cnf :=
